@@ -3,11 +3,13 @@ C18 - n0xml keeps document order and its searches return only real nodes.
 
 Lean: lean/N0Verif/Model/NXml.lean, Proofs/NXml.lean, Proofs/NXmlStr.lean, Props/C18.lean
 B streams: nxml.parse, nxml.get, nxml.getl, nxml.getattr, nxml.getattrl, nxml.findall (str / list, find_first on / off),
-           nxml.findfirst, nxml.in, nxml.step (vs re.match with the regex taken from the source),
+           nxml.findfirst, nxml.in, nxml.step (vs the step regex AND the re function - match / fullmatch - taken from the source),
            nxml.int (vs int()), nxml.dec (vs str()), nxml.norm, nxml.findall/grammar (rendered grammar expressions)
 C evaluators (the statement on the real code, ElementTree as the oracle):
            parse_preserves, get_positional, get_attrib_positional, findall_resolves, conditions_exact,
-           deep_wildcard, findfirst, in_iff, parse_render (string form == list form, regex groups == tokens)
+           deep_wildcard, findfirst, in_iff, parse_render (string form == list form, regex groups == tokens),
+           paths_fresh (returned path lists are the caller's: changing them changes no later search on any document)
+Tags of documents and expressions include XML names with '-', '.', a non-ASCII letter and prefix pairs (item / item-id).
 """
 import ast
 import os
@@ -23,8 +25,13 @@ MANIFEST = dict(
     technique="Lean 4 theorems over a hand-written model of n0xml (input: the element tree ElementTree reports) + "
               "differential correspondence with the implementation + the statement run on the implementation against ElementTree",
     text="Partial by nature: xml.etree.ElementTree (expat) is trusted; the model starts from the element tree it reports "
-         "(tag, text, attrib, children). Proved in Lean for the code with fixes C18-a/b/c/d applied, unbounded in document "
-         "size/depth and expression length: C18_parse_preserves (the parsed structure lists, in document order, exactly the "
+         "(tag, text, attrib, children). Proved in Lean for the code with fixes C18-a/b/c/d/e applied (e: the step regex is "
+         "applied with re.fullmatch and its tag class is an XML name \\w[\\w.\\-]*, so 'item-id' no longer reads as 'item' and a "
+         "step with anything left over raises ValueError; f: path lists are fresh per call - object identity, harness only), "
+         "unbounded in document size/depth and expression length: "
+         "C18_step_whole (whatever the step parser accepts it has consumed: the step is its tag followed by what the index / "
+         "condition groups read, a step without index and condition IS its tag); C18_name_step (findall([t]) for a name t "
+         "of word characters, '.', '-' returns exactly the siblings whose tag EQUALS t); C18_parse_preserves (the parsed structure lists, in document order, exactly the "
          "elements below the root with depth, tag, attributes and the text of every childless element); C18_get_positional "
          "(+_str: list-form and string-form get with explicit per-tag indexes 't1[k1]/.../tn[kn]' returns the stored value of "
          "the element at that position, the default when there is none; tags without '/' and '[', non-empty for the string); "
@@ -43,19 +50,25 @@ MANIFEST = dict(
          "C18-d (findall dropped the matches of '**' dives when a later sibling resolved a '..' at the same level; without the "
          "fix findfirst differs from findall[0] exactly for a filtered '**' step directly followed by '..' whose tail collapses, "
          "206 such expressions found by exhaustive search, none after the fix). C18_parse_render / C18_parseStep_render / "
-         "C18_findall_rendered: for expressions of the property's grammar (tokens '..' or tag[idx][text() op v], tag a name, "
+         "C18_findall_rendered: for expressions of the property's grammar (tokens '..' or tag[idx][text() op v], tag a name (a word character then word characters, '.', '-'; ASCII and U+00C0-U+024F), "
          "'*' or '**', idx absent/[*]/[i], op = or !=, value non-empty without quotes and '/') whose text contains no '**/**' "
          "(C18_parse_render_noDD: structurally, no plain '**' token directly followed by a '**...' token), "
          "the '**/**' loop + path split + '..' test + step parser (which stands for the regex) return exactly the tokens, so "
          "findall(string) is findall(list of rendered steps). The step regex is replaced by a hand-written parser validated "
-         "against re.match (regex read from the source, also on every rendered grammar step); the '**/**' collapse itself, "
+         "against the regex and the re function (fullmatch) read from the source, also on every rendered grammar step; the '**/**' collapse itself, "
          "quoted/==/<> condition spellings, int()/str() and non-grammar strings are covered by correspondence streams only; "
          "all nine statements are executed on the real code with ElementTree as the oracle.",
     note="see notes/C18.md for the exact list of proved theorems and what stays differential only",
     design_ref="5/C18",
 )
 
-TAGS = ["a", "b", "c", "item", "ab"]
+# tags: XML names, incl. '-' and '.' inside, a non-ASCII letter, and prefix pairs (item / item-id / item.x, a / ab / a.b)
+TAGS = ["a", "b", "c", "item", "ab", "item-id", "a.b", "\u00e9", "item.x"]
+# the letters the model knows (Model/NXml.lean `isWord` / `isNameChar`): ASCII word characters and U+00C0-U+024F without U+00D7, U+00F7
+_W = "A-Za-z0-9_\u00c0-\u00d6\u00d8-\u00f6\u00f8-\u024f"
+NAME = "[" + _W + "][" + _W + ".\\-]*"          # the whole name of a step: a word character, then word characters, '.', '-'
+NAME_RE = re.compile(NAME)
+XMLNAME_RE = re.compile("[A-Za-z_\u00c0-\u00d6\u00d8-\u00f6\u00f8-\u024f][" + _W + ".\\-]*")
 TEXTS = ["x", "y", "z", "1", "Item 1", "none", "Null", "nul", "a", "b", " ", "q z", "\u00e9", "it's", 'say "hi"', "a]b", "v/w", "[0]", "x]", "=x"]
 SRC = os.path.join(core.REPO, "n0struct", "n0struct_xml.py")
 
@@ -76,6 +89,10 @@ def gen_spec(rng, depth, maxdepth, tags=TAGS):
     if nk:
         # repeated and interleaved sibling tags
         local = rng.sample(tags, rng.choice([1, 2, 2, 3]))
+        # prefix pairs side by side: a step must match the whole name, not its alphanumeric prefix
+        for short, long_ in (("item", "item-id"), ("item", "item.x"), ("a", "a.b"), ("a", "ab")):
+            if short in local and long_ in tags and long_ not in local and rng.random() < 0.4:
+                local.append(long_)
         for _ in range(nk):
             kids.append(gen_spec(rng, depth + 1, maxdepth, tags))
             kids[-1][0] = rng.choice(local)
@@ -104,7 +121,7 @@ def render(spec, pretty=False, ind=0):
 
 
 def valid_spec(s):
-    return (isinstance(s, list) and len(s) == 4 and isinstance(s[0], str) and re.fullmatch(r"[A-Za-z_][A-Za-z0-9_]*", s[0]) is not None
+    return (isinstance(s, list) and len(s) == 4 and isinstance(s[0], str) and XMLNAME_RE.fullmatch(s[0]) is not None
             and (s[1] is None or isinstance(s[1], str)) and isinstance(s[2], list)
             and all(isinstance(kv, list) and len(kv) == 2 and isinstance(kv[0], str) and re.fullmatch(r"[A-Za-z_]+", kv[0]) and isinstance(kv[1], str) for kv in s[2])
             and len({kv[0] for kv in s[2]}) == len(s[2])
@@ -245,7 +262,7 @@ def cond_text(rng, text):
 
 
 def gen_step(rng, tags, text=None, simple=False):
-    tag = rng.choice(tags + tags + (["*"] if simple else ["*", "**", "zz"]))
+    tag = rng.choice(tags + tags + (["*", "item-zz"] if simple else ["*", "**", "zz", "item-zz", "item-i", "a."]))
     idx = rng.choice(["", "", "", "[0]", "[1]", "[2]", "[*]"])
     cond = cond_text(rng, text) if rng.random() < 0.3 else ""
     return tag + idx + cond
@@ -326,7 +343,7 @@ def wf_tok(t):
     if t is None:
         return True
     tag, idx, cond = t
-    if not (tag in ("*", "**") or re.fullmatch(r"[A-Za-z0-9_]+", tag)):
+    if not (tag in ("*", "**") or NAME_RE.fullmatch(tag)):
         return False
     if not (idx is None or idx == "*" or (isinstance(idx, int) and idx >= 0)):
         return False
@@ -339,7 +356,7 @@ def wf_expr(toks):
 
 
 def gen_tok(rng, tags, text=None, k=None):
-    tag = rng.choice(tags + tags + ["*", "**", "zz", "b_2"])
+    tag = rng.choice(tags + tags + ["*", "**", "zz", "b_2", "item-zz", "b-2", "a.", "\u00e9\u0142"])
     idx = rng.choice([None, None, None, 0, 1, 2, "*", k if k is not None else 3])
     cond = None
     if rng.random() < 0.3:
@@ -465,7 +482,8 @@ def same_value(got, want):
     return got == want and type(got) is type(want)
 
 
-SIMPLE_STEP = re.compile(r"([A-Za-z0-9_]+|\*)(?:\[(\d+|\*)\])?(?:\[text(?:\(\))?(==|!=|<>|=)(['\"]?)([^'\"\[\]]+)\4\])?")
+# the name of a simple step is the WHOLE text before the first '[' (oracle of the sibling-filter semantics)
+SIMPLE_STEP = re.compile("(" + NAME + r"|\*)(?:\[(\d+|\*)\])?(?:\[text(?:\(\))?(==|!=|<>|=)(['\"]?)([^'\"\[\]]+)\4\])?")
 
 
 def parse_simple(xp):
@@ -630,12 +648,13 @@ def ev_parse_render(c):
             return {"find_first": ff, "string": repr(a)[:200], "list": repr(b)[:200], "xp": xp}
     rx = _RX.get("rx") or source_regex()
     if rx is not None:
+        _RX["rx"] = rx
         for t, st in zip(toks, steps):
             if t is None:
                 if st != "..":
                     return {"step": st, "token": t}
                 continue
-            m = re.match(rx, st)
+            m = rx_apply(st)
             if not m or m.end() != len(st) or tok_of_groups(m.groups()) != t:
                 return {"step": st, "token": t, "groups": None if not m else list(m.groups())}
     return None
@@ -702,9 +721,12 @@ def ev_deep_wildcard(c):
 def ev_findfirst(c):
     _, doc = doc_of(c)
     r = core.call(doc.findall, c["xp"])
-    if r[0] != "ok":
-        return None
     f = core.call(doc.findfirst, c["xp"])
+    if r[0] != "ok":
+        # an expression findall refuses is refused by findfirst too (never answered with a node)
+        if f[0] == "ok" or f[1:2] != r[1:2]:
+            return {"findall": repr(r)[:200], "findfirst": repr(f)[:200]}
+        return None
     want = r[1][0] if r[1] else ()
     if f[0] != "ok" or f[1] != want:
         return {"findall": repr(r[1])[:200], "findfirst": repr(f)[:200]}
@@ -714,15 +736,67 @@ def ev_findfirst(c):
 def ev_in_iff(c):
     _, doc = doc_of(c)
     r = core.call(doc.findall, c["xp"])
-    if r[0] != "ok":
-        return None
     f = core.call(lambda: c["xp"] in doc)
+    if r[0] != "ok":
+        # an expression findall refuses is refused by `in` too (never answered True / False)
+        if f[0] == "ok" or f[1:2] != r[1:2]:
+            return {"findall": repr(r)[:200], "in": repr(f)[:100]}
+        return None
     if f[0] != "ok" or f[1] is not bool(r[1]):
         return {"findall_nonempty": bool(r[1]), "in": repr(f)[:100]}
     return None
 
 
+_OTHER = {}
+
+
+def ev_paths_fresh(c):
+    """(former finding C18-f) the path lists handed out belong to the caller: after every returned path has been
+    changed, the same search on the same document and a search on ANOTHER document still answer what they answered
+    before, and a root_xpath list given by the caller is neither returned nor changed"""
+    from n0struct.n0struct_xml import n0xml
+
+    _, doc = doc_of(c)
+    if "doc" not in _OTHER:
+        _OTHER["doc"] = n0xml("<r><c/><a><c>1</c></a></r>")
+    other = _OTHER["doc"]
+    want_other = [(["c"], None), (["a", "c"], "1")]
+    calls = {"findall": lambda: doc.findall(c["xp"]), "findall_first": lambda: doc.findall(c["xp"], find_first=True),
+             "findfirst": lambda: [h for h in [doc.findfirst(c["xp"])] if h != ()], "findall_own_root": None}
+    for name, fn in calls.items():
+        own = []
+        if fn is None:
+            fn = lambda: doc.findall(c["xp"], own)
+        r = core.call(fn)
+        if r[0] != "ok" or not r[1]:
+            continue
+        snap = [(list(p), v) for p, v in r[1]]
+        touched = []
+        bad = None
+        try:
+            for p, _v in r[1]:
+                if not any(p is q for q in touched):
+                    p.append("zz")
+                    touched.append(p)
+            if own:
+                bad = {"call": name, "callers_root_xpath_after": list(own)}
+            again = core.call(fn)
+            if bad is None and (again[0] != "ok" or [(list(p), v) for p, v in again[1]] != snap):
+                bad = {"call": name, "first": repr(snap)[:200], "after_changing_the_returned_paths": repr(again)[:200]}
+            o = core.call(other.findall, "**")
+            if bad is None and (o[0] != "ok" or [(list(p), v) for p, v in o[1]] != want_other):
+                bad = {"call": name, "other_document": "<r><c/><a><c>1</c></a></r>", "findall('**')": repr(o)[:200], "want": repr(want_other)}
+        finally:
+            for p in touched:  # undo, so that a poisoned default does not leak into the next case
+                if p and p[-1] == "zz":
+                    p.pop()
+        if bad is not None:
+            return bad
+    return None
+
+
 EVALS = {
+    "paths_fresh": ev_paths_fresh,
     "parse_preserves": ev_parse_preserves,
     "get_positional": ev_get_positional,
     "findall_resolves": ev_findall_resolves,
@@ -910,12 +984,14 @@ def replay(rp):
 # primitive streams
 # ---------------------------------------------------------------------------
 def source_regex():
-    """the step regex as written in the source of findall (None if it cannot be located)"""
+    """the step regex as written in the source of findall and the `re` function it is applied with
+    (`match` / `fullmatch`); None if it cannot be located.  The function is remembered in _RX['fn']."""
     try:
         tree = ast.parse(open(SRC, encoding="utf-8").read())
         for node in ast.walk(tree):
-            if isinstance(node, ast.Call) and isinstance(node.func, ast.Attribute) and node.func.attr == "match" and isinstance(node.func.value, ast.Name) and node.func.value.id == "re":
+            if isinstance(node, ast.Call) and isinstance(node.func, ast.Attribute) and node.func.attr in ("match", "fullmatch") and isinstance(node.func.value, ast.Name) and node.func.value.id == "re":
                 if node.args and isinstance(node.args[0], ast.Constant) and isinstance(node.args[0].value, str):
+                    _RX["fn"] = node.func.attr
                     return node.args[0].value
     except Exception:
         pass
@@ -925,9 +1001,16 @@ def source_regex():
 _RX = {}
 
 
-def prim_step(c):
+def rx_apply(s):
+    """the step regex applied to a step exactly as the source applies it"""
     rx = _RX.get("rx")
-    m = re.match(rx, c["s"])
+    if rx is None:
+        rx = _RX["rx"] = source_regex()
+    return getattr(re, _RX.get("fn", "match"))(rx, s)
+
+
+def prim_step(c):
+    m = rx_apply(c["s"])
     if not m:
         return "ok none"
     g = m.groups()
@@ -973,7 +1056,7 @@ def run(ctx):
     else:
         _RX["rx"] = rx
         cases = []
-        al = list("ab1_*[]()=!<>'\"tex ]x]=") + ["text", "text()", "[text()", "[*]", "[1]", "**", "=="]
+        al = list("ab1_*[]()=!<>'\"tex ]x]=") + ["text", "text()", "[text()", "[*]", "[1]", "**", "==", "-", ".", "-", ".", "\u00e9", "\u00c9", "\u017f", "\u024f", "\u00d7", "\u0663", "\n"]
         for _ in range(n * 2):
             r = rng.random()
             if r < 0.5:
@@ -1076,6 +1159,7 @@ def run(ctx):
     ctx.evaluate("in_iff", fcases + scases + qcases, ev_in_iff, in_known=ik_a, nontrivial=nt)
     ctx.evaluate("get_attrib_positional", docs_only[::2], ev_get_attrib_positional, in_known=ik_c, nontrivial=lambda c: nt(c) and has_attrib(c["doc"]))
     ctx.evaluate("parse_render", qcases, ev_parse_render, nontrivial=nt)
+    ctx.evaluate("paths_fresh", fcases[::2] + qcases[::2], ev_paths_fresh, nontrivial=lambda c: nt(c) and ".." in c.get("xp", ""))
 
     # ---- distribution -------------------------------------------------------
     from n0struct.n0struct_xml import n0xml  # noqa
@@ -1093,9 +1177,10 @@ def run(ctx):
                                  "simple_fragment_cases": sum(1 for c in scases + fcases if parse_simple(c["xp"]) is not None)}
     ctx.extra["assumptions"] = [
         "xml.etree.ElementTree (expat) is trusted: the model and the oracles start from the element tree it reports",
-        "expressions are ASCII (the model answers `unsupported` otherwise: regex classes \\d/.lower()/int() are modelled for ASCII)",
-        "the model follows n0struct_xml.py with fixes C18-a (`in`), C18-b (`**` on an empty document), C18-c (get below a leaf) and C18-d (findall keeps dive matches before a '..' resolved at the same level) applied",
+        "expressions are ASCII plus the Latin letters U+00C0-U+024F without U+00D7/U+00F7 (the model answers `unsupported` otherwise: \\w, \\d, .lower(), int() are modelled for these only; every such letter matches \\w, none \\d, and lower() keeps it non-ASCII - checked against Python for the whole range)",
+        "XML names with combining marks, U+00B7 or other scripts are outside the model's scope; with \\w[\\w.\\-]* the code refuses (ValueError) names containing characters that are neither \\w, '.', '-' - loudly, no longer by matching a prefix",
+        "the model follows n0struct_xml.py with fixes C18-a (`in`), C18-b (`**` on an empty document), C18-c (get below a leaf), C18-d (findall keeps dive matches before a '..' resolved at the same level), C18-e (the whole step is read: re.fullmatch, tag = XML name) and C18-f (root_xpath default None, caller's list copied) applied",
         "get_attrib with an empty path raises RuntimeError on the real code; the model answers `unsupported` there (PyErr has no RuntimeError)",
         "text of elements that have children and tail text are dropped by n0xml; the property speaks about tags, attributes, leaf texts, order",
     ]
-    ctx.extra["trusted_base"] = ["xml.etree.ElementTree / expat (produces the input tree)", "re.match only as the reference of stream nxml.step (the model uses a hand-written step parser)"]
+    ctx.extra["trusted_base"] = ["xml.etree.ElementTree / expat (produces the input tree)", "re.fullmatch only as the reference of stream nxml.step (the model uses a hand-written step parser)"]
